@@ -158,6 +158,7 @@ Definition K_SRS : Z := 4.
 Definition K_FORMAT : Z := 5.
 Definition K_STYLES : Z := 6.
 Definition V_EMPTY : Z := 7.
+Definition K_CRS : Z := 8.
 Definition reserved (k : Z) : bool :=
   (k =? K_BBOX) || (k =? K_WIDTH) || (k =? K_HEIGHT) || (k =? K_SRS) || (k =? K_FORMAT).
 
@@ -178,6 +179,21 @@ Definition url_params (tmpl : params) (fixed : list (Z * Z)) (r : request) : par
   | Some _ => m6
   | None => pset K_STYLES [VStr V_EMPTY] m6
   end.
+
+(* WMS 1.3.0 upstream (WMS130MapRequest.adapt_params_to_version): after the 1.1.1 steps the BBOX is rewritten in the
+   axis order of the CRS (switch_bbox: y/x for north/east CRSs; ne = is_axis_order_ne of the srs_code) and the
+   parameter srs is renamed to crs *)
+Definition swap_bbox (b : bbox) : bbox := let '(x0, y0, x1, y1) := b in (y0, x0, y1, x1).
+Definition premove (k : Z) (m : params) : params := filter (fun kv => negb (fst kv =? k)) m.
+Definition url_params_v (v130 : bool) (ne : Z -> bool) (tmpl : params) (fixed : list (Z * Z)) (r : request) : params :=
+  let m := url_params tmpl fixed r in
+  if v130 then
+    let m1 := if ne (s_code (r_srs r)) then pset K_BBOX [VBox (swap_bbox (r_bbox r))] m else m in
+    match pget K_SRS m1 with
+    | Some v => pset K_CRS v (premove K_SRS m1)
+    | None => m1
+    end
+  else m.
 
 (* ------------------------------------------------------------------ bbox_position_in_image *)
 (* int(x) of the rational a / b, b > 0: truncation *)
@@ -445,10 +461,10 @@ Definition params_eqb (a b : params) : bool :=
 
 (* observation of one WMSSource.get_map call *)
 Inductive wms_obs := OBlank | OUrl (p : params) | OErr (e : Z).
-Definition wms_obs_eqb (tmpl : params) (fixed : list (Z * Z)) (o : outcome) (x : wms_obs) : bool :=
+Definition wms_obs_eqb (v130 : bool) (ne : Z -> bool) (tmpl : params) (fixed : list (Z * Z)) (o : outcome) (x : wms_obs) : bool :=
   match o, x with
   | Blank, OBlank => true
-  | Request r, OUrl p => params_eqb (url_params tmpl fixed r) p
+  | Request r, OUrl p => params_eqb (url_params_v v130 ne tmpl fixed r) p
   | Err e, OErr e' => e =? e'
   | _, _ => false
   end.
@@ -462,10 +478,10 @@ Definition tile_obs_eqb (o : tile_outcome) (x : tile_obs) : bool :=
   | _, _ => false
   end.
 
-Fixpoint outs_eqb (ts : list params) (fixed : list (Z * Z)) (o : list outcome) (x : list wms_obs) : bool :=
+Fixpoint outs_eqb (v130 : bool) (ne : Z -> bool) (ts : list params) (fixed : list (Z * Z)) (o : list outcome) (x : list wms_obs) : bool :=
   match ts, o, x with
   | [], [], [] => true
-  | t :: ts', o1 :: o', x1 :: x' => wms_obs_eqb t fixed o1 x1 && outs_eqb ts' fixed o' x'
+  | t :: ts', o1 :: o', x1 :: x' => wms_obs_eqb v130 ne t fixed o1 x1 && outs_eqb v130 ne ts' fixed o' x'
   | _, _, _ => false
   end.
 
@@ -487,9 +503,9 @@ Fixpoint glookup (t : gtable) (g : Z) (x : bbox) : bool :=
   end.
 
 (* comparison of the outcomes of service.wms.combined_layers + get_map with render_pair *)
-Definition pair_obs_eqb (ta tb tab : params) (fixed : list (Z * Z)) (o : list outcome) (x : list wms_obs) : bool :=
+Definition pair_obs_eqb (v130 : bool) (ne : Z -> bool) (ta tb tab : params) (fixed : list (Z * Z)) (o : list outcome) (x : list wms_obs) : bool :=
   match o, x with
-  | [o1], [x1] => wms_obs_eqb tab fixed o1 x1
-  | [o1; o2], [x1; x2] => wms_obs_eqb ta fixed o1 x1 && wms_obs_eqb tb fixed o2 x2
+  | [o1], [x1] => wms_obs_eqb v130 ne tab fixed o1 x1
+  | [o1; o2], [x1; x2] => wms_obs_eqb v130 ne ta fixed o1 x1 && wms_obs_eqb v130 ne tb fixed o2 x2
   | _, _ => false
   end.
